@@ -333,6 +333,8 @@ def gen_history(rng, n, max_len=6, kinds=("expand", "bfs", "dfs", "min", "target
             h.append(("skiprem",))
         elif k in ("reclaim", "pickle"):
             h.append((k,))
+        elif k == "scc":
+            h.append(("scc", rng.random() < 0.7))
         elif k == "aseeds":
             h.append(("aseeds", lim()))
         elif k == "block":
